@@ -73,8 +73,12 @@ def main():
                     json.dump(meta, open(mp, "w"), indent=1)
                 errs = {p: v for p, v in res.items() if v[0] != 1}
                 if not any(v[0] == 1 for v in res.values()):
-                    bad += 1
-                    print("MISSED seed %s (checks run: %s)" % (cid, "all" if not only else ",".join(only)))
+                    meta_ = json.load(open(os.path.join(VERIF, "seeded", cid, "meta.json")))
+                    if meta_.get("documented_miss") and not only:
+                        print("DOCUMENTED-MISS seed %s: %s" % (cid, str(meta_["documented_miss"])[:160]))
+                    else:
+                        bad += 1
+                        print("MISSED seed %s (checks run: %s)" % (cid, "all" if not only else ",".join(only)))
                 for pid, (rc, lines) in sorted(errs.items()):
                     bad += 1
                     print("EXIT-%d seed %s: %s %s" % (rc, cid, pid, lines[:1]))
